@@ -32,6 +32,10 @@ pub enum RowForm {
     /// zero-column resultsets only: `end_row()` called this many times in a loop (rows of a
     /// zero-column resultset carry nothing, so a shim can end billions of them)
     EndRowTimes(u64),
+    /// fewer cells than columns written with `write_col`, then an explicit `end_row()`, which has to
+    /// refuse the short row; the shim then gives that row up and carries on with the next one (if
+    /// the writer lets it - see `ShimState::failed_after_refused_offer`).  Not part of the response.
+    ShortEndRow,
 }
 
 #[derive(Clone, Debug, PartialEq, Serialize, Deserialize)]
@@ -204,6 +208,8 @@ pub struct ShimState {
     /// next id of `auto_ids` (or error when that is None), zero columns and `auto_nparams` parameters
     pub auto: bool,
     pub auto_ids: VecDeque<Option<(u32, usize)>>,
+    /// auto mode: error kinds for the result callbacks, in order (None / exhausted = completed(0,0))
+    pub auto_errs: VecDeque<Option<u16>>,
     /// leak (instead of drop) a RowWriter whose row-level call returned Err
     pub forget_on_refusal: bool,
     /// per execution: how many parameters the shim pulls from the iterator (None / missing = all)
@@ -337,6 +343,16 @@ impl Shim {
                                 RowForm::WriteRowRef => {
                                     logged!(self, cb, "write_row", at, rw.write_row(&row.cells))?;
                                 }
+                                RowForm::ShortEndRow => {
+                                    for cell in &row.cells {
+                                        logged!(self, cb, "write_col", at, dispatch(cell, &mut ColSink(&mut rw)))?;
+                                    }
+                                    match rw.end_row() {
+                                        Ok(()) => self.st.borrow_mut().offers_accepted.push(format!("end_row() accepted row {:?} with {} of its cells written", at, row.cells.len())),
+                                        Err(e) if e.kind() == io::ErrorKind::InvalidData => self.st.borrow_mut().offers_refused += 1,
+                                        Err(e) => return Err(e),
+                                    }
+                                }
                                 RowForm::EndRowTimes(n) => {
                                     let mut r = Ok(());
                                     for _ in 0..n {
@@ -370,7 +386,7 @@ impl Shim {
                         Ok(())
                     })();
                     if let Err(e) = written {
-                        if rows.iter().any(|r| !r.offers.is_empty()) && self.st.borrow().offers_refused > 0 {
+                        if rows.iter().any(|r| !r.offers.is_empty() || r.form == RowForm::ShortEndRow) && self.st.borrow().offers_refused > 0 {
                             self.st.borrow_mut().failed_after_refused_offer = true;
                             // (the row in progress is in an unknown state: leak the writer rather than
                             // have its destructor complete it)
@@ -384,15 +400,29 @@ impl Shim {
                         }
                         return Err(e);
                     }
+                    // (a failing end of the set after a refusal in it is the same either-or as a failing
+                    // row-level call: see `failed_after_refused_offer`)
+                    let refused_before = rows.iter().any(|r| !r.offers.is_empty() || r.form == RowForm::ShortEndRow) && self.st.borrow().offers_refused > 0;
+                    let mark = |st: &Rc<RefCell<ShimState>>, failed: bool| {
+                        if failed && refused_before {
+                            st.borrow_mut().failed_after_refused_offer = true;
+                        }
+                    };
                     match end {
                         SetEnd::FinishOne => {
-                            w = Some(logged!(self, cb, "finish_one", None, rw.finish_one())?);
+                            let r = logged!(self, cb, "finish_one", None, rw.finish_one());
+                            mark(&self.st, r.is_err());
+                            w = Some(r?);
                         }
                         SetEnd::Finish => {
-                            logged!(self, cb, "finish", None, rw.finish())?;
+                            let r = logged!(self, cb, "finish", None, rw.finish());
+                            mark(&self.st, r.is_err());
+                            r?;
                         }
                         SetEnd::FinishError { kind, msg } => {
-                            logged!(self, cb, "finish_error", None, rw.finish_error(error_kind(*kind), &msg.clone()))?;
+                            let r = logged!(self, cb, "finish_error", None, rw.finish_error(error_kind(*kind), &msg.clone()));
+                            mark(&self.st, r.is_err());
+                            r?;
                         }
                         SetEnd::DropRowWriter => {
                             drop(rw);
@@ -409,7 +439,10 @@ impl Shim {
 
     fn result_action<W: io::Read + io::Write>(&self, cb: usize, what: &str, w: QueryResultWriter<'_, W>) -> Result<(), ShimError> {
         let prog = if self.auto_mode() {
-            Program::completed(0, 0)
+            match self.st.borrow_mut().auto_errs.pop_front() {
+                Some(Some(kind)) => Program { steps: vec![Step::Error { kind, msg: b"the statement failed".to_vec() }] },
+                _ => Program::completed(0, 0),
+            }
         } else {
             match self.next_action() {
                 Some(Action::Result(p)) => p,
